@@ -206,6 +206,9 @@ pub fn run_one(scn: Scenario, tape: Tape, sched: Option<Vec<u32>>, seed: u64, ex
                 "C16"
             };
             w.violate_force(prop, format!("panic/{file}/{short}"), format!("client panicked at {loc}: {msg}"));
+            if file.starts_with("packet_reader.rs") && (msg.contains("out of range") || msg.contains("out of bounds")) {
+                w.violate_force("C14", "inbound-overruns-receive-buffer".into(), format!("client panicked at {loc}: {msg}"));
+            }
         } else {
             harness_error = Some(format!("harness panic at {loc}: {msg}"));
         }
